@@ -56,6 +56,18 @@ def workloads(seed, thorough):
         scs.append(S.dealer_router("dealer-burst-%s" % tr, tr, n=20, sizes=[40, 300], when="mid"))
         scs.append(S.dealer_router("dealer-after-%s" % tr, tr, n=40, sizes=[40, 70000], when="after"))
         scs.append(S.req_rep("reqrep-%s" % tr, tr, n=15 if not thorough else 60, sizes=[32, 300, 66000]))
+    # a DEALER that starts send()ing (single frames: the non-blocking fast path first) before its connection is
+    # up and keeps going while the parked backlog is drained into the new connection
+    for rep, tr in enumerate((["tcp", "tcp", "tcp", "ipc", "ipc"] if thorough else ["tcp", "tcp", "ipc"])):
+        n = 6000
+        ep = S.endpoint(tr, "early")
+        scs.append({"name": "dealerearly-%d-%s" % (rep, tr), "deadline_ms": 60000,
+                    "sockets": [{"name": "tx", "type": "DEALER", "opts": [S.i32(S.SNDHWM, 100000), [S.ROUTING_ID, "str", "dealer-1"]]},
+                                {"name": "rx", "type": "ROUTER", "opts": [S.i32(S.RCVHWM, 100000)]}],
+                    "tasks": [{"name": "rx", "ops": [{"op": "bind", "sock": "rx", "ep": ep, "save": "ep"}, {"op": "barrier", "name": "go", "parties": 2},
+                                                    {"op": "recv_n", "sock": "rx", "n": n, "timeout_ms": 5000, "multipart": True}]},
+                              {"name": "tx", "ops": [{"op": "barrier", "name": "go", "parties": 2}, {"op": "connect", "sock": "tx", "ep": "$ep"},
+                                                    {"op": "send_n", "sock": "tx", "prefix": "a", "n": n, "sizes": [16], "timeout_ms": 10000, "max_errs": 3}]}]})
     return scs
 
 
